@@ -1,7 +1,7 @@
 (* C13 / C14: formatter and parser of the implementation against the model, the independent grammar and
    to-scientific-string, and the round trips. *)
 From Coq Require Import List.
-From Apd Require Import Generated.Consts Model.Base Model.NumDigits Model.Decimal Model.Context Model.Text Spec.SpecZ Spec.Grammar Oracle.Judge.
+From Apd Require Import Generated.Consts Model.Base Model.NumDigits Model.Decimal Model.Context Model.Text Model.Compose Spec.SpecZ Spec.Grammar Oracle.Judge.
 Import ListNotations.
 Open Scope Z_scope.
 
@@ -72,6 +72,13 @@ Definition judge_compose (d : dec) (res : option dec) : list Z :=
       flag (form_eqb (form_of r) f && Bool.eqb (neg r) (neg d)
             && (negb (is_finite d) || ((coeff r =? coeff d) && (exp r =? exp d)))) O_COMPOSE
   end.
+
+(* Decompose of d and Compose of its output into a destination that held prev: the tuple and the composed
+   Decimal against the model (every field, the destination's leftovers included), and the round trip itself *)
+Definition judge_compose_full (d prev : dec) (form : Z) (ng : bool) (co : str) (e : Z) (res : option dec) : list Z :=
+  let '(mf, mng, mco, me) := decompose d in
+  flag ((mf =? form) && Bool.eqb mng ng && str_eqb mco co && (me =? e) && odec_eqb (compose prev form ng co e) res) K_TEXT
+  ++ judge_compose d res.
 
 (* Context.SetString: model, and the C01/C02/C07 oracles on the value the grammar assigns to the string *)
 Definition judge_ctx_set_string (c : ctx) (s : str) (res : option (dec * Z * err)) : list Z :=
